@@ -64,8 +64,9 @@ Example reply_trace_example :
 Proof. vm_compute. reflexivity. Qed.
 
 (* ---------- what the correspondence check relies on ---------- *)
-(* The run-time oracle p_c03 (ChkX.v, clauses 5-6: the programs called are a duplicate-free subsequence of the pre-order of the tree; every reply
-   entry has the id, payload, result kind, mode, contract and dispatcher the tree prescribes) accepts the model's own run of EVERY well-formed scenario, in every case
+(* The run-time oracle p_c03 (ChkX.v, clauses 5-8: the programs called are a duplicate-free subsequence of the pre-order of the tree; every reply
+   entry has the id, payload, result kind, mode, contract and dispatcher the tree prescribes; of the two reply handlers of a
+   sub-message at most one is entered) accepts the model's own run of EVERY well-formed scenario, in every case
    environment: an implementation that behaves exactly like the model is never flagged, and "agrees with the model"
    implies "satisfies the oracle's reading of C03".
    Premise [wf_scenario] (ExecOracle.v) is what the generator guarantees (harness/exec_common/src/gen.rs): in every
